@@ -212,6 +212,9 @@ impl TulispObject {
     ///
     /// Returns an Error if `self` is not a `Symbol`.
     pub fn set(&self, to_set: TulispObject) -> Result<(), Error> {
+        if !self.symbolp() {
+            return Err(self.not_a_symbol("Can bind values only to Symbols".to_string()));
+        }
         self.rc
             .borrow_mut()
             .set(to_set)
@@ -223,6 +226,9 @@ impl TulispObject {
     ///
     /// Returns an Error if `self` is not a `Symbol`.
     pub fn set_scope(&self, to_set: TulispObject) -> Result<(), Error> {
+        if !self.symbolp() {
+            return Err(self.not_a_symbol(format!("Expected Symbol: Can't assign to {self}")));
+        }
         self.rc
             .borrow_mut()
             .set_scope(to_set)
@@ -233,6 +239,9 @@ impl TulispObject {
     ///
     /// Returns an Error if `self` is not a `Symbol`.
     pub fn unset(&self) -> Result<(), Error> {
+        if !self.symbolp() {
+            return Err(self.not_a_symbol("Can unbind only from Symbols".to_string()));
+        }
         self.rc
             .borrow_mut()
             .unset()
@@ -383,7 +392,20 @@ impl TulispObject {
     }
 
     pub(crate) fn set_global(&self, to_set: TulispObject) -> Result<(), Error> {
+        if !self.symbolp() {
+            return Err(Error::new(
+                crate::ErrorKind::TypeMismatch,
+                "Can bind values only to Symbols".to_string(),
+            ));
+        }
         self.rc.borrow_mut().set_global(to_set)
+    }
+
+    /// Only symbols hold bindings. Anything else is rejected before the
+    /// mutable borrow: it may be a form that is being evaluated, which is
+    /// borrowed already.
+    fn not_a_symbol(&self, desc: String) -> Error {
+        Error::new(crate::ErrorKind::TypeMismatch, desc).with_trace(self.clone())
     }
 
     pub(crate) fn is_lexically_bound(&self) -> bool {
